@@ -102,6 +102,8 @@ type Net struct {
 	// CloseYields makes StreamConn.Close a scheduling point (instrumented
 	// builds only: there a task may park while it holds library locks).
 	CloseYields bool
+	// PostYield makes the return of every transport operation a scheduling point (see block).
+	PostYield bool
 
 	K      *kernel.K
 	Stream StreamLink
@@ -116,6 +118,18 @@ type Net struct {
 
 //go:norace
 func New(k *kernel.K) *Net { return &Net{K: k} }
+
+// block parks the caller for one transport operation. With PostYield the
+// return of the operation is a scheduling point of its own: a thread can lose
+// the processor between a system call's return and its next instruction.
+//
+//go:norace
+func (n *Net) block(r *kernel.Req) {
+	n.K.Block(r)
+	if n.PostYield && !r.Aborted {
+		n.K.Yield(r.Site+"+ret", r.Obj)
+	}
+}
 
 //go:norace
 func (n *Net) id() int { n.nextID++; return n.nextID }
@@ -312,7 +326,7 @@ func (c *StreamConn) Read(p []byte) (int, error) {
 		c.Touched = append(c.Touched, "Read")
 		c.n.K.Unlock()
 	}
-	c.n.K.Block(r)
+	c.n.block(r)
 	if r.Aborted {
 		return 0, ErrClosed
 	}
@@ -369,7 +383,7 @@ func (c *StreamConn) Write(p []byte) (int, error) {
 	hbRelease(&c.tx.hb)
 	o := &writeOp{c: c, p: p}
 	r := &kernel.Req{Site: c.Role + ".stream.Write", Obj: c.ID, Op: o}
-	c.n.K.Block(r)
+	c.n.block(r)
 	if r.Aborted {
 		return 0, ErrClosed
 	}
@@ -662,7 +676,7 @@ func (o *acceptOp) Done(now time.Time) {
 func (l *Listener) Accept() (net.Conn, error) {
 	o := &acceptOp{l: l}
 	r := &kernel.Req{Site: "listener.Accept", Obj: l.ID, Op: o}
-	l.n.K.Block(r)
+	l.n.block(r)
 	if r.Aborted {
 		return nil, ErrClosed
 	}
@@ -975,7 +989,7 @@ func (pc *PacketConn) recv(site string, p []byte) (*recvOp, error) {
 	k.Unlock()
 	o := &recvOp{e: &pc.endpoint, p: p, pc: pc, opID: id}
 	r := &kernel.Req{Site: site, Obj: pc.ID, Op: o}
-	k.Block(r)
+	pc.n.block(r)
 	if r.Aborted {
 		return nil, ErrClosed
 	}
@@ -1071,7 +1085,7 @@ func (pc *PacketConn) sendFrom(site string, p []byte, addr net.Addr, from Addr) 
 	hbRelease(hb)
 	o := &sendOp{e: &pc.endpoint, p: p, to: to, from: from, hb: hb, srv: true}
 	r := &kernel.Req{Site: site, Obj: pc.ID, Op: o}
-	pc.n.K.Block(r)
+	pc.n.block(r)
 	if r.Aborted {
 		return ErrClosed
 	}
@@ -1156,7 +1170,7 @@ func (e *endpoint) Pending() int { return len(e.rxq) }
 func (c *DgramConn) Read(p []byte) (int, error) {
 	o := &recvOp{e: &c.endpoint, p: p, cli: c}
 	r := &kernel.Req{Site: "dg.Read", Obj: c.ID, Op: o}
-	c.n.K.Block(r)
+	c.n.block(r)
 	if r.Aborted {
 		return 0, ErrClosed
 	}
@@ -1178,7 +1192,7 @@ func (c *DgramConn) Write(p []byte) (int, error) {
 	hbRelease(hb)
 	o := &sendOp{e: &c.endpoint, p: p, to: &c.srv.endpoint, from: c.addr, toAddr: c.remote, hb: hb}
 	r := &kernel.Req{Site: "dg.Write", Obj: c.ID, Op: o}
-	c.n.K.Block(r)
+	c.n.block(r)
 	if r.Aborted {
 		return 0, ErrClosed
 	}
